@@ -5,6 +5,7 @@ import (
 	"math"
 	"math/rand"
 	"sort"
+	"strings"
 )
 
 // generator of store scripts (shared by C01, C03, C05, C06 with different emphasis)
@@ -147,6 +148,11 @@ func (g *storeGenState) dataPoint(target string) sPoint {
 		typ = "" // an untyped point is a point like any other
 	}
 	p := sPoint{Type: typ, Key: key, VBits: g.value(), Text: storeTexts[g.r.Intn(len(storeTexts))]}
+	if g.r.Intn(20) == 0 {
+		// a long text (a description, a certificate): contents that differ only far into it
+		p.Text = strings.Repeat("long text ", 30) + []string{"ending one", "ending two", "ending 2"}[g.r.Intn(3)]
+		g.kinds["long-text"]++
+	}
 	g.tied = false
 	p.Time = g.freshTime(target, typ, key)
 	if g.r.Intn(4) == 0 {
@@ -477,6 +483,14 @@ func storeGen(r *rand.Rand, id int, flavour string) *sScript {
 					for i := range big {
 						big[i] = sPoint{Type: "big", Key: fmt.Sprint(i), Time: g.tick(), VBits: math.Float64bits(float64(i)), Text: "x"}
 					}
+					if id%24 == 7 {
+						// every second one of these: 45 identities, each written two or three times in the one batch (same
+						// spelling of the key, distinct instants), in no particular order
+						for i := range big {
+							big[i].Key = fmt.Sprint(i % 45)
+						}
+						r.Shuffle(len(big), func(i, j int) { big[i], big[j] = big[j], big[i] })
+					}
 					if ep, en, ok := g.anyEdge(); ok && r.Intn(2) == 0 {
 						g.add("edge-points-large", sOp{Kind: "ep", Node: en, Parent: ep, Points: big})
 					} else {
@@ -537,6 +551,15 @@ func storeGen(r *rand.Rand, id int, flavour string) *sScript {
 			g.add("final-resend", o)
 			break
 		}
+	}
+	if flavour == "c05" && id%4 == 1 {
+		// at the very end of one refusal script in four: a refused root tombstone, then a new top-level node (a first
+		// edge below the sentinel "root" with a node type is accepted: the instance root moves to it) and a write to it
+		g.add("refused-root-tombstone", sOp{Kind: "ep", Node: storeRootID, Parent: "root", Points: []sPoint{g.tombPoint(1)}})
+		top := fmt.Sprintf("top%d", id)
+		g.add("new-top-node", sOp{Kind: "ep", Node: top, Parent: "root", Points: []sPoint{g.tombPoint(0), g.typePoint("device")}})
+		g.add("node-points", sOp{Kind: "np", Node: top, Points: g.batch(top, 2)})
+		g.extra = append(g.extra, top)
 	}
 	s := &sScript{ID: id, Kind: flavour, Ops: g.ops, Kinds: g.kinds}
 	for _, n := range g.nodes[1:] {
